@@ -6,11 +6,15 @@ Three ties, all on the current working tree:
     are regenerated from the source and kernel-checked against the Lean constants;
  2. differential: the real helpers vs the compiled Lean model / Lean reference implementations on generated inputs;
  3. property oracles on the real code alone (round trips, checksum validity, rejection of corrupted checksums,
-    decryptability of the certificate envelope with a test key).
+    decryptability of the certificate envelope with a test key);
+ 4. ONE object, many operations (aux_c19_walks.py and the "ONE object" section below): construct, request, turn every
+    public knob, request again — against the Lean object models (`hpp-walk`, `dauth-walk`), the stateless references
+    for the values in force, and a freshly constructed object with the current values.
 """
 import ast, base64, hashlib, os, struct
 import aux_mii_layout as L
 import aux_c19_real as R
+import aux_c19_walks as W
 from aux_c19_real import hx, cps
 
 LEVEL = "proof"
@@ -72,6 +76,8 @@ def run(ctx):
                 "DAuthClient.calculate_mac/device_token/edge_token, AAuthClient.auth_digital with pinned RNG, HppClient.request, "
                 "nnas.calc_password_hash, ProdInfo.check/get_device_id/get_tls_cert/get_tls_key) and the same input through the compiled Lean model; "
                 "every Mii field is swept over its full range with the other fields random; malformed/out-of-range inputs included. "
+                "single DAuth/AAuth/Hpp/NASC/ProdInfo/MiiData objects are driven through operation sequences in which every public knob (shared Settings object, "
+                "keys dict, attributes, setters) is turned between requests, each request compared with the Lean reference for the values in force and with a fresh object; "
                 "distinct non-trivial = distinct input lines that are not plain rejections of random garbage")
 
     # ---- 0. self-test of the Lean references against published vectors
@@ -468,6 +474,19 @@ def run(ctx):
     rsa = RSA.import_key(tkey.encode(tls.TYPE_DER))
     def put_crc(blob, off, size):
         struct.pack_into("<H", blob, off + size - 2, nswitch.crc16(bytes(blob[off:off + size - 2])))
+    def make_prod(devid, kek):
+        """well-formed calibration data: device id, the test certificate, the test key's private exponent wrapped with `kek`"""
+        blob = bytearray(rng.randbytes(0x3C40))
+        blob[0x2B56:0x2B66] = (("%016x" if rng.random() < 0.5 else "%016X") % devid).encode()
+        put_crc(blob, 0x2A90, 0x250)
+        struct.pack_into("<I", blob, 0xAD0, len(der_cert)); put_crc(blob, 0xAD0, 0x10)
+        blob[0xAE0:0xAE0 + len(der_cert)] = der_cert
+        blob[0x12E0:0x1300] = hashlib.sha256(der_cert).digest()
+        initial = rng.randbytes(16)
+        blob[0x3AE0:0x3AF0] = initial
+        blob[0x3AF0:0x3BF0] = AES.new(kek, AES.MODE_CTR, nonce=b"", initial_value=initial).encrypt(rsa.d.to_bytes(0x100, "big"))
+        put_crc(blob, 0x3AE0, 0x140)
+        return bytes(blob)
     for i in range(10 if quick else 120):
         blob = bytearray(rng.randbytes(0x3C40))
         devid = rng.randrange(1 << 64)
@@ -523,13 +542,21 @@ def run(ctx):
         all_keys["master_key_%02x" % (g - 1)] = rng.randbytes(16)
     gens = sorted(set(dauth.KEY_GENERATION.values()))
     by_gen = {g: [v for v in versions if dauth.KEY_GENERATION[v] == g] for g in gens}
+    def dict_tok(d): return ",".join(hx(k.encode()) + ":" + hx(v) for k, v in d.items()) or "-"
     for w in range(3 if quick else 40):
-        client = dauth.DAuthClient(dict(all_keys))
+        cur_keys = dict(all_keys)                      # the harness's own view of client.keys (never the same object)
+        client = dauth.DAuthClient(dict(cur_keys))
         history = []
         nsteps = 45 if quick else 120
-        # the walk visits every version at least once, goes up and down, revisits, and changes key generation often
+        # the walk visits every version at least once, goes up and down, revisits, and changes key generation often;
+        # in between every other public knob is turned: entries of client.keys, the whole dict, key_generation itself
         order = list(versions); rng.shuffle(order)
         prev_v = None
+        cur_g, cur_region = client.key_generation, 1
+        last_form, last_data = "a=0&b=x", rng.randbytes(16)
+        # the same sequence through the stateful object model (one line per walk)
+        mops = ["keys=" + dict_tok(cur_keys), "ver=%d:%s:%d" % (client.key_generation, hx(client.system_digest.encode()), client.api_version == 7), "ist=0"]
+        mreal = []
         for step in range(nsteps):
             r = rng.random()
             if step < len(order) and r < 0.6: v = order[step]
@@ -538,6 +565,23 @@ def run(ctx):
             elif r < 0.9 and prev_v is not None: v = prev_v  # no switch at all
             else: v = rng.choice(versions)
             switch = (v != prev_v) or rng.random() < 0.5     # sometimes call set_system_version with the same version
+            # ---- knobs other than the setters, turned BEFORE the version switch of this step (the switch resets key_generation)
+            knobs = []
+            kr = rng.random()
+            if step > 0 and kr < 0.12:
+                # replace the master key of the generation the NEXT request uses (or the kek source): client.keys[name] = value
+                name = rng.choice(["master_key_%02x" % (dauth.KEY_GENERATION[v] - 1), "master_key_%02x" % (dauth.KEY_GENERATION[v] - 1), "aes_kek_generation_source",
+                                   "master_key_%02x" % (rng.choice(gens) - 1)])
+                val = rng.randbytes(16)
+                client.keys[name] = val; cur_keys[name] = val
+                knobs.append({"client.keys[%r]" % name: val.hex()}); mops.append("key=%s:%s" % (hx(name.encode()), hx(val)))
+            elif step > 0 and kr < 0.18:
+                cur_keys = {k: rng.randbytes(16) for k in all_keys}
+                client.keys = dict(cur_keys)
+                knobs.append({"client.keys = ": {k: x.hex() for k, x in cur_keys.items()}}); mops.append("keys=" + dict_tok(cur_keys))
+            elif step > 0 and kr < 0.24:
+                client.set_power_state(rng.choice(["FA", "HA"])); client.set_host(rng.choice(["dauth-lp1.ndas.srv.nintendo.net", "dauth.example"]))
+                knobs.append({"set_power_state/set_host": True}); mops.append("nop")
             region = rng.choice([None, None, 1, 2, 3])
             edge = rng.random() < 0.5
             challenge = base64.b64encode(rng.randbytes(32), b"-_").decode()
@@ -545,31 +589,55 @@ def run(ctx):
             if rng.random() < 0.5: dt = dt.rstrip("=")
             cid = rng.choice([dauth.CLIENT_ID_BAAS, rng.randrange(1 << 64)])
             vendor = rng.choice(["akamai", "v%d" % rng.randrange(9)])
-            history.append({"set_system_version": v if switch else None, "set_platform_region": region, "call": "edge_token" if edge else "device_token",
-                            "client_id": cid, "vendor": vendor, "challenge": challenge, "data": dt})
-            real, req, cl = R.dauth_token(None, v if switch else None, region, challenge, dt, cid, edge, vendor, client=client)
+            if switch:
+                cur_g = dauth.KEY_GENERATION[v]
+                mops.append("ver=%d:%s:%d" % (cur_g, hx(dauth.SYSTEM_VERSION_DIGEST[v].encode()), dauth.API_VERSION[v] == 7))
+            # key_generation assigned directly AFTER the switch (public attribute; the per-call cases above use it the same way)
+            set_g = None
+            if step > 0 and rng.random() < 0.1:
+                set_g = rng.choice([g for g in gens if g != cur_g])
+                knobs.append({"client.key_generation = ": set_g}); mops.append("kg=%d" % set_g)
+            if region is not None:
+                cur_region = region; mops.append("ist=%d" % (region == 2))
+            history.append({"before": knobs, "set_system_version": v if switch else None, "then client.key_generation = ": set_g, "set_platform_region": region,
+                            "call": "edge_token" if edge else "device_token", "client_id": cid, "vendor": vendor, "challenge": challenge, "data": dt})
+            if switch: client.set_system_version(v)
+            if set_g is not None:
+                client.key_generation = set_g; cur_g = set_g
+            real, req, cl = R.dauth_token(None, None, region, challenge, dt, cid, edge, vendor, client=client)
             prev_v = v
-            g = dauth.KEY_GENERATION[v]
+            g = cur_g
             vend = hx(vendor.encode()) if (edge and dauth.API_VERSION[v] == 7) else "none"
-            replay = {"keys": {k: x.hex() for k, x in all_keys.items()}, "sequence_on_one_client": list(history),
-                      "how": "ONE DAuthClient(keys); for each step: set_system_version / set_platform_region if given, then the call against a scripted "
-                             "request callback returning the step's challenge/data; the LAST step's rawform['mac'] is wrong"}
-            C.add("dauth-token %s %s %s %s %d %d %d %s %s" % (hx(all_keys["aes_kek_generation_source"]), hx(all_keys["master_key_%02x" % (g - 1)]), cps(dt),
-                                                              hx(challenge.encode()), cid, 1 if client.region == 2 else 0, g, hx(dauth.SYSTEM_VERSION_DIGEST[v].encode()), vend),
+            replay = {"keys_at_construction": {k: x.hex() for k, x in all_keys.items()}, "sequence_on_one_client": list(history),
+                      "how": "ONE DAuthClient(keys); for each step: the knobs under 'before', set_system_version / key_generation / set_platform_region if given, "
+                             "then the call against a scripted request callback returning the step's challenge/data; the LAST step's rawform['mac'] is wrong"}
+            C.add("dauth-token %s %s %s %s %d %d %d %s %s" % (hx(cur_keys["aes_kek_generation_source"]), hx(cur_keys["master_key_%02x" % (g - 1)]), cps(dt),
+                                                              hx(challenge.encode()), cid, 1 if cur_region == 2 else 0, g, hx(dauth.SYSTEM_VERSION_DIGEST[v].encode()), vend),
                   real, "dauth-walk:" + ("edge" if edge else "device"), replay, reference=True)
-            # the same step on a fresh client
-            fresh, _, _ = R.dauth_token(dict(all_keys), v, client.region, challenge, dt, cid, edge, vendor)
+            mops.append("tok=%d/%s/%s/%d/%s" % (edge, hx(challenge.encode()), cps(dt), cid, hx(vendor.encode())))
+            mreal.append(real.replace(" ", ":"))
+            # the same step on a fresh client with the current values
+            fc = dauth.DAuthClient(dict(cur_keys)); fc.set_system_version(v)
+            if g != dauth.KEY_GENERATION[v]: fc.key_generation = g
+            fresh, _, _ = R.dauth_token(None, None, cur_region, challenge, dt, cid, edge, vendor, client=fc)
             if fresh != real:
                 oracle_fail.append(("dauth-stateful", "a reused DAuthClient produces a different MAC/form than a fresh client for the same configuration "
                                     "(step %d: version %d, key generation %d): reused %s, fresh %s" % (len(history), v, g, real[:60], fresh[:60]), replay))
-            # calculate_mac called directly in between (fills / uses any cache as well)
+            # calculate_mac called directly in between (fills / uses any cache as well); forms and challenge data repeat on purpose
             if rng.random() < 0.3:
-                form = "a=%d&b=x" % rng.randrange(1000); data = rng.randbytes(16)
+                form = last_form if rng.random() < 0.4 else "a=%d&b=x" % rng.randrange(1000)
+                data = last_data if (rng.random() < 0.4 and form != last_form) else rng.randbytes(16)
+                last_form, last_data = form, data
                 try: real2 = "ok " + hx(client.calculate_mac(form, data).encode())
                 except Exception as e: real2 = "err " + R.exc_name(e)
                 history.append({"call": "calculate_mac", "form": form, "data": data.hex()})
-                C.add("dauth-mac %s %s %s %s" % (hx(all_keys["aes_kek_generation_source"]), hx(all_keys["master_key_%02x" % (g - 1)]), hx(data), hx(form.encode())),
-                      real2, "dauth-walk:mac", {"keys": {k: x.hex() for k, x in all_keys.items()}, "sequence_on_one_client": list(history)}, reference=True)
+                C.add("dauth-mac %s %s %s %s" % (hx(cur_keys["aes_kek_generation_source"]), hx(cur_keys["master_key_%02x" % (g - 1)]), hx(data), hx(form.encode())),
+                      real2, "dauth-walk:mac", {"keys_at_construction": {k: x.hex() for k, x in all_keys.items()}, "sequence_on_one_client": list(history)}, reference=True)
+                mops.append("mac=%s/%s" % (hx(form.encode()), hx(data)))
+                mreal.append(real2.replace(" ", ":"))
+        C.add("dauth-walk " + " ".join(mops), " ".join(["ok"] + mreal), "dauth-walk:object-model",
+              {"keys_at_construction": {k: x.hex() for k, x in all_keys.items()}, "sequence_on_one_client": list(history),
+               "record_format": "one record per device_token / edge_token / calculate_mac call: ok:<mac>[:<signed form>] (hex)"}, reference=True)
     # one AAuthClient across all versions (api 3 envelopes; api >= 4 passes a token through), up and down
     aversions = sorted(aauth.API_VERSION)
     for w in range(1 if quick else 8):
@@ -579,6 +647,16 @@ def run(ctx):
             v = rng.choice(v3) if rng.random() < 0.6 else rng.choice(aversions)
             tid = rng.randrange(1 << 64)
             pk, seed = rng.randbytes(16), rng.randbytes(32)
+            # knobs and calls that take no part in the envelope, in between (the callback of the previous step is still installed)
+            if step > 0 and rng.random() < 0.4:
+                client.set_power_state(rng.choice(["FA", "HA"])); client.set_host(rng.choice(["aauth-lp1.ndas.srv.nintendo.net", "aauth.example"]))
+                other = rng.choice(["auth_system", "auth_nocert", "auth_gamecard"])
+                history.append({"other": "set_power_state/set_host, then " + other})
+                try:
+                    if other == "auth_gamecard": R.run(client.auth_gamecard(rng.randrange(1 << 64), 1, "devtoken", rng.randbytes(0x200), rng.randbytes(0x20), "c", "s"))
+                    else: R.run(getattr(client, other)(rng.randrange(1 << 64), 1, "devtoken"))
+                except Exception as e:
+                    oracle_fail.append(("aauth-stateful", "%s on a reused AAuthClient raised %r" % (other, e), {"sequence_on_one_client": list(history)}))
             if aauth.API_VERSION[v] == 3:
                 ticket = R.make_ticket(rng, tid)
                 history.append({"set_system_version": v, "title_id": tid, "ticket": ticket.hex(), "plain_key": pk.hex(), "oaep_seed": seed.hex()})
@@ -637,8 +715,57 @@ def run(ctx):
                 if got != vals:
                     oracle_fail.append(("mii-roundtrip:walk", "parse(build()) on a reused object changed fields", {"fields": dict(zip(names, vals))}))
 
+    # every public knob of ONE HppClient / NASCClient (and of the Settings object shared with the caller) turned between requests
+    W.hpp_walks(ctx, rng, C, oracle_fail, quick)
+    W.nasc_walks(ctx, rng, C, oracle_fail, quick)
+    W.nnas_grid(ctx, rng, C, oracle_fail, quick)
+    # one ProdInfo object: the keys dict it was given and its data are replaced between calls
+    for w in range(1 if quick else 6):
+        kname = rng.choice(["ssl_rsa_kek", "ssl_rsa_kek_personalized"])
+        kek = rng.randbytes(16)
+        pkeys = {kname: kek}
+        devid = rng.randrange(1 << 64)
+        P = R.Prod(make_prod(devid, kek), pkeys).p
+        history = [{"construct": "ProdInfo(keys, file)", "keys": {kname: kek.hex()}, "device_id": devid}]
+        for step in range(5 if quick else 10):
+            if step > 0:
+                k = rng.choice(["keys[name]=", "add-personalized", "del-personalized", "keys=", "data="])
+                if k == "del-personalized" and not ("ssl_rsa_kek_personalized" in P.keys and "ssl_rsa_kek" in P.keys): k = "add-personalized"
+                if k == "add-personalized" and "ssl_rsa_kek_personalized" in P.keys: k = "keys[name]="
+                if k == "keys[name]=":
+                    n = "ssl_rsa_kek_personalized" if "ssl_rsa_kek_personalized" in P.keys else "ssl_rsa_kek"
+                    kek = rng.randbytes(16); P.keys[n] = kek
+                    history.append({"do": "prodinfo.keys[%r] = %s; prodinfo.data = calibration data wrapped with that key" % (n, kek.hex())})
+                elif k == "add-personalized":
+                    kek = rng.randbytes(16); P.keys["ssl_rsa_kek_personalized"] = kek       # takes precedence over ssl_rsa_kek from now on
+                    history.append({"do": "prodinfo.keys['ssl_rsa_kek_personalized'] = %s; prodinfo.data = data wrapped with it" % kek.hex()})
+                elif k == "del-personalized":
+                    del P.keys["ssl_rsa_kek_personalized"]; kek = P.keys["ssl_rsa_kek"]
+                    history.append({"do": "del prodinfo.keys['ssl_rsa_kek_personalized']; prodinfo.data = data wrapped with ssl_rsa_kek"})
+                elif k == "keys=":
+                    kname = rng.choice(["ssl_rsa_kek", "ssl_rsa_kek_personalized"]); kek = rng.randbytes(16); P.keys = {kname: kek}
+                    history.append({"do": "prodinfo.keys = {%r: %s}; prodinfo.data = data wrapped with it" % (kname, kek.hex())})
+                else:
+                    history.append({"do": "prodinfo.data = other calibration data (same key, other device id / counter block)"})
+                devid = rng.randrange(1 << 64)
+                P.data = make_prod(devid, kek)
+            blob = P.data
+            rp = {"sequence_on_one_object": list(history), "how": "ONE ProdInfo object; after the listed assignments get_tls_key() / get_device_id() must answer for the CURRENT keys and data"}
+            try:
+                got = RSA.import_key(P.get_tls_key().encode(tls.TYPE_DER)); real = "ok %d" % got.d
+            except Exception as e:
+                real = "err " + R.exc_name(e)
+            history.append({"call": "get_tls_key", "result": real[:40]})
+            C.add("prod-tlsd %s %s" % (hx(kek), hx(blob)), real, "prod-walk:tlsd", rp, reference=True)
+            if real != "ok %d" % rsa.d:
+                oracle_fail.append(("prod-stateful", "get_tls_key on a re-configured ProdInfo does not recover the private exponent wrapped with the current key: " + real[:60], rp))
+            try: real = "ok %d" % P.get_device_id()
+            except Exception as e: real = "err " + R.exc_name(e)
+            if real != "ok %d" % devid:
+                oracle_fail.append(("prod-stateful", "get_device_id on a ProdInfo whose data was replaced returns %s, stored id %d" % (real, devid), rp))
+
     # ------------------------------------------------------------------------------------------ compare
-    outs = drv.batch(C.lines)
+    outs = par_batch(drv, C.lines)
     diffs = []
     for line, real, model, (tag, replay, reference, nontrivial) in zip(C.lines, C.reals, outs, C.meta):
         ctx.case(key=line if len(line) < 60 else hash(line), nontrivial=nontrivial, tag=tag.split(":")[0] + ":" + model.split(" ")[0] + ((":" + model.split(" ")[1]) if model.startswith("err") else ""),
@@ -656,6 +783,13 @@ def run(ctx):
     for line, real, model, tag, replay, reference in diffs:
         if reference:
             r = dict(replay or {}); r.update({"op": line, "real": real, "reference": model})
+            ra, rb = real.split(" "), model.split(" ")
+            if tag.split(":")[0] in ("hpp-knobs", "dauth-walk") and "walk" in line.split(" ")[0] and len(ra) == len(rb):
+                k = next(i for i in range(len(ra)) if ra[i] != rb[i])
+                r.update({"first_wrong_record": k, "record_real": ra[k], "record_reference": rb[k]})
+                ctx.violation("reference:" + tag.split(":")[0], "%s: call %d of the sequence on ONE object is not authenticated for the values in force when it was made "
+                              "(library %s, reference %s)" % (tag, k, ra[k][:120], rb[k][:120]), r)
+                continue
             ctx.violation("reference:" + tag.split(":")[0], "%s: the library's result differs from the independent reference implementation" % tag, r)
     if (diffs or layout_broken or const_broken) and not ctx.violations and not ctx.known_hits:
         if diffs:
@@ -666,6 +800,21 @@ def run(ctx):
             ctx.corr_break("mii-layout-obligation", "the layout extracted from miis.py no longer equals the Lean constant: %s %s" % (x["problems"][:3], out[-600:]), {"extracted": x["dec"][:80]})
         else:
             ctx.corr_break("constants-obligation", "a literal constant of the source no longer equals the Lean constant: " + cout[-800:], {})
+
+
+def par_batch(drv, lines, nproc=8):
+    """the compiled model is a stateless line filter: split the batch over several driver processes (interleaved, so the
+    expensive 65000-round key derivations spread out) and put the answers back in order"""
+    if len(lines) < 64:
+        return drv.batch(lines)
+    from concurrent.futures import ThreadPoolExecutor
+    chunks = [lines[i::nproc] for i in range(nproc)]
+    with ThreadPoolExecutor(nproc) as ex:
+        res = list(ex.map(drv.batch, chunks))
+    out = [None] * len(lines)
+    for i, r in enumerate(res):
+        out[i::nproc] = r
+    return out
 
 
 def _pad(m):
